@@ -119,7 +119,8 @@ FilterRef(cs) ==
 \* (delete_if_exists tolerates a missing file; a dangling symlink must go too)
 RemoveCases == {[body |-> b, remove |-> r, path |-> p] :
                    b \in {"ok", "raises_exception", "raises_base_exception"},
-                   r \in {"ok", "raises"}, p \in {"file", "missing", "dangling_symlink", "directory"}}
+                   \* raises_enoent: the remover itself reports "not found" (and removes nothing): an error of the remover like any other
+                   r \in {"ok", "raises", "raises_enoent"}, p \in {"file", "missing", "dangling_symlink", "directory"}}
 RemoveRef(cs) ==
   CASE cs.body = "ok" -> [removed |-> FALSE, propagates |-> "none", logged |-> 0]
     [] cs.body = "raises_base_exception" -> [removed |-> FALSE, propagates |-> "original", logged |-> 0]
